@@ -13,7 +13,7 @@ BOUNDS = ("constraint expression trees: all trees of depth <= 2 (quick, subsampl
           "candidate value symbolic in [-30, 130]; size/alphabet trees over {ValueSize, PermittedAlphabet, Intersection, Union, Exclusion} on strings of "
           "length <= 3 over the alphabet {a, b, z, 0}; component presence/absence/WithComponents on a 3-member SEQUENCE with symbolic presence flags; "
           "no-bypass: 20 value-producing operations of Integer/OctetString/BitString/character strings with symbolic operands; derivation chains of length 3")
-OUTSIDE = "trees deeper than 3; empty unions/intersections (admit everything by construction); ContainedSubtypeConstraint with literal operands (finding)"
+OUTSIDE = "trees deeper than 3; the empty union, and an empty intersection at top level (admit everything by construction; as operands they are covered by empty_operand); ContainedSubtypeConstraint with literal operands (finding)"
 
 P = (-5, 0, 3, 10, 100)
 
@@ -391,6 +391,61 @@ def bits_history(n1, n2, v, how):
     return None
 
 
+def empty_operand(v, shape):
+    """An empty intersection (the subtypeSpec of an unconstrained type) as an OPERAND denotes the whole value space:
+    in a union it swallows the other alternatives, under an exclusion it excludes everything, in an intersection it is neutral."""
+    everything = constraint.ConstraintsIntersection()
+    sv = constraint.SingleValueConstraint(1, 2)
+    vr = constraint.ValueRangeConstraint(0, 10)
+    if shape == 0:
+        c, want = constraint.ConstraintsUnion(everything, sv), True
+    elif shape == 1:
+        c, want = constraint.ConstraintsUnion(sv, univ.Integer().subtypeSpec), True
+    elif shape == 2:
+        c, want = constraint.ConstraintsIntersection(everything, vr), 0 <= v <= 10
+    elif shape == 3:
+        c, want = constraint.ConstraintsIntersection(vr, constraint.ConstraintsExclusion(constraint.ConstraintsUnion(everything, sv))), False
+    elif shape == 4:
+        c, want = constraint.ConstraintsIntersection(vr, constraint.ConstraintsUnion(constraint.ConstraintsIntersection(everything), sv)), 0 <= v <= 10
+    else:
+        c, want = constraint.ConstraintsUnion(constraint.ConstraintsIntersection(everything, sv), constraint.ValueRangeConstraint(5, 6)), v in (1, 2, 5, 6)
+    T = univ.Integer().subtype(subtypeSpec=c)
+    try:
+        T.clone(v)
+        got = True
+    except error.PyAsn1Error:
+        got = False
+    if got != want:
+        return "constraint shape %d %s %d; its denotation %s it" % (shape, "admits" if got else "rejects", v, "contains" if want else "does not contain")
+    return None
+
+
+def no_upcast(v, history, style):
+    """However many types have been derived from INTEGER before (history), a member declared INTEGER (1 | 2) does not take a plain INTEGER
+    whose value is outside {1, 2}; and the plain INTEGER type does not become a subtype of the constrained one."""
+    c = constraint.SingleValueConstraint(1, 2)
+    if history >= 1:
+        univ.Integer().subtype(subtypeSpec=constraint.SingleValueConstraint(1, 2))
+    if history >= 2:
+        univ.Integer().subtype(subtypeSpec=constraint.ValueRangeConstraint(0, 5)).subtype(subtypeSpec=constraint.SingleValueConstraint(1, 2))
+    if style == 0:
+        F = univ.Integer().subtype(subtypeSpec=c)
+    elif style == 1:
+        F = univ.Integer(subtypeSpec=c)
+    else:
+        F = univ.Integer(subtypeSpec=constraint.ConstraintsIntersection(constraint.SingleValueConstraint(1, 2)))
+    if F.isSuperTypeOf(univ.Integer(v)) and v not in (1, 2):
+        return "INTEGER (1 | 2) recognises the unconstrained INTEGER %d as a value of a subtype" % v
+    S = univ.Sequence(componentType=namedtype.NamedTypes(namedtype.NamedType("f", F))).clone()
+    try:
+        S.setComponentByName("f", univ.Integer(v))
+    except error.PyAsn1Error:
+        return None
+    if v not in (1, 2):
+        return "a member declared INTEGER (1 | 2) accepted the plain INTEGER %d" % v
+    return None
+
+
 def nobypass_decode(v):
     T = univ.Integer().subtype(subtypeSpec=constraint.ValueRangeConstraint(LO, HI))
     enc = der_encoder.encode(univ.Integer(v))
@@ -430,7 +485,10 @@ def derivation(v, tagged, lo1, hi1):
             return "derived type %d admits %s but its parent does not" % (i, v)
     for i in range(len(chain)):
         for j in range(i, len(chain)):
-            if not chain[i].isSuperTypeOf(chain[j], matchTags=False):
+            # (matchTags=False makes base.isSuperTypeOf return True without looking at the constraints at all: only the
+            #  tagged chain, whose tags legitimately differ, uses it; there the constraints are compared directly)
+            ok = (chain[i].subtypeSpec.isSuperTypeOf(chain[j].subtypeSpec) if tagged else chain[i].isSuperTypeOf(chain[j]))
+            if not ok:
                 return "type %d does not recognise its descendant %d as a subtype" % (i, j)
     if acc[3]:
         val = T2.clone(v)
@@ -485,6 +543,10 @@ SQ, ST = len(_str_trees("quick")), len(_str_trees("thorough"))
 from vfw.obl import split_range
 
 OBLIGATIONS = [
+    Obl("empty_operand", empty_operand, {"v": I(-2, 12), "shape": I(0, 5)}, budget=60,
+        doc="an empty intersection as operand of union / intersection / exclusion denotes the whole value space"),
+    Obl("no_upcast", no_upcast, {"v": I(0, 60), "history": I(0, 2), "style": I(0, 2)}, budget=60,
+        doc="after 0..2 unrelated derivations from INTEGER, a member declared INTEGER (1 | 2) refuses a plain INTEGER outside {1, 2}"),
     Obl("bits_history", bits_history, {"n1": I(0, 6), "n2": I(0, 6), "v": I(0, 3), "how": I(0, 3)}, shards=[{"how": C(h)} for h in range(4)], budget=120,
         doc="two numerically equal BIT STRING values of different lengths put to one size-constrained type in a row (construction, decoding, clone, subtype)"),
     Obl("denot_int", denot_int, {"tier": C(0), "ti": I(0, NQ - 1), "v": I(-30, 130), "via_type": B}, shards=split_range("ti", 0, NQ - 1, 16), budget=120, tiers=("quick",),
